@@ -1943,8 +1943,13 @@ class BSP:
         try:
             first_vert = self.vertexes[self.vertexes.index(Vec())]
         except (IndexError, ValueError):
-            first_vert = Vec()
-            self.vertexes.append(first_vert)
+            if self.vertexes:
+                # Like VBSP, just refer to the first vertex. Adding a new one would
+                # alter the vertex lump every time a map with no vertex at the origin is resaved.
+                first_vert = self.vertexes[0]
+            else:
+                first_vert = Vec()
+                self.vertexes.append(first_vert)
         edges: list[Edge] = [Edge(first_vert, first_vert)]
 
         # We cannot share vertexes or edges, it breaks VRAD!
